@@ -224,33 +224,65 @@ def check_import(cfg, crate, rep):
         rep.ob("C03.lossless", key2 + "|duplicate-attribute-type", len(dup) >= 1,
                "names are imported by upserting into a type-keyed map (DistinguishedName::push): a subject with a repeated attribute type (DC=com,DC=example or several OUs) is silently collapsed, so certificates issued from the imported CA carry an issuer name different from the CA's subject; the import must fail instead (no duplicate-type refusal dominates the push)",
                expected="a `return Err(..)` guarded by dn.get(&ty).is_some() / contains_key before push", found="no duplicate check", sp=n.get("sp"))
-    # an RDN is taken apart with successive next() calls on its iterator: with a first AND a second attribute present some
-    # refusal must fire; with exactly one attribute none of the "shape" refusals may (whatever the spelling: nested
-    # if-let, a match on the pair, let-else ...)
-    fconds = [c for c, v, nn, f3 in I2.fails if f3 == fn2]
-    nexts = sorted({a for c in fconds for a in F.atoms(c) if a[0] == "some" and a[1].split("(")[0].endswith("Iterator>::next")}, key=lambda a: len(a[1]))
-    multi_ok = False
-    found_m = "no refusal depends on a second attribute of the RDN"
-    empties = sorted({a for c in fconds for a in F.atoms(c) if a[0] == "empty" and a[1].startswith("name[]")}, key=lambda a: len(a[1]))
-    first = second = None
-    first_true = True
-    if len(nexts) >= 2:
-        first, second = nexts[0], nexts[1]
-    elif len(nexts) == 1 and empties:
-        # the first `next()` of the fresh iterator over the RDN is rendered as "the RDN is not empty"
-        first, second, first_true = empties[0], nexts[0], False
-    if first is not None:
-        def ev(c, asg):
-            full = {a: False for a in F.atoms(c)}
+    # Cardinality model of one RDN: n = number of attributes in it. Whatever the spelling -- successive `next()` calls on
+    # the RDN's iterator (k-th `next()` is Some iff n >= k), "the RDN is (not) empty", a `count()` / `len()` of the RDN
+    # compared with a constant, up front over all RDNs (`any`) or inside the loop -- the shape refusals are evaluated
+    # for n = 1, 2, 3: refused for 2 and 3, not refused (for its shape) for 1.
+    import re as _re2
+    fconds = [I2.expand(common.concretise(I2, c)) for c, v, nn, f3 in I2.fails if f3 == fn2]
+    fconds = [common.concretise(I2, c) for c in fconds]
+    all_atoms = {a for c in fconds for a in F.atoms(c)}
+    nexts = sorted({a for a in all_atoms if a[0] == "some" and a[1].split("(")[0].endswith("Iterator>::next")}, key=lambda a: len(a[1]))
+    empties = sorted({a for a in all_atoms if a[0] == "empty" and "[]" in a[1]}, key=lambda a: len(a[1]))
+    shape = {}
+    k0 = 1
+    for a in empties[:1]:
+        shape[a] = lambda n: n == 0
+        k0 = 2          # the first `next()` of the fresh iterator over the RDN was rendered as "the RDN is not empty"
+    for i_, a in enumerate(nexts):
+        shape[a] = (lambda k: (lambda n: n >= k))(k0 + i_)
+    _cnt = _re2.compile(r"(?:Iterator>::count|::len)\(.*\[\]")
+    _ops = {"<": lambda x, y: x < y, "<=": lambda x, y: x <= y, ">": lambda x, y: x > y, ">=": lambda x, y: x >= y, "==": lambda x, y: x == y, "!=": lambda x, y: x != y}
+    for a in all_atoms:
+        if a[0] == "eq":
+            l_, r_ = str(a[1]), str(a[2])
+            if _cnt.search(l_) and r_.isdigit():
+                shape[a] = (lambda k: (lambda n: n == k))(int(r_))
+            elif _cnt.search(r_) and l_.isdigit():
+                shape[a] = (lambda k: (lambda n: n == k))(int(l_))
+        elif a[0] == "cmp" and a[1] in _ops:
+            l_, r_ = str(a[2]), str(a[3])
+            if _cnt.search(l_) and r_.isdigit():
+                shape[a] = (lambda op, k: (lambda n: _ops[op](n, k)))(a[1], int(r_))
+            elif _cnt.search(r_) and l_.isdigit():
+                shape[a] = (lambda op, k: (lambda n: _ops[op](k, n)))(a[1], int(l_))
+
+    def residual(n):
+        """the disjunction of all refusal conditions for an RDN with n attributes, as a formula over the other tests"""
+        parts = []
+        for c in fconds:
+            asg = {a: fn_(n) for a, fn_ in shape.items()}
             for a in F.atoms(c):
                 if a[0] == "opaque" and str(a[1]).startswith("in-loop@"):
-                    full[a] = True
-            full.update({a: v for a, v in asg.items() if a in full})
-            return F.evalf(c, full)
-        both = [c for c in fconds if second in F.atoms(c)]     # (the test of the first attribute may already have left the function)
-        multi_ok = any(ev(c, {first: first_true, second: True}) for c in both) and not any(ev(c, {first: first_true, second: False}) for c in both)
-        found_m = "refused with two attributes: %s; accepted with one: %s" % (any(ev(c, {first: first_true, second: True}) for c in both), not any(ev(c, {first: first_true, second: False}) for c in both))
-    rep.ob("C03.import", key2 + "|multi-valued-rdn-refused", multi_ok, "an RDN with more than one attribute is refused (and one with exactly one attribute is not refused for its shape)", found=found_m)
+                    asg[a] = True
+            parts.append(S.pe_formula(c, asg))
+        return F.Or(*parts)
+
+    def always(n):
+        return residual(n) is True
+
+    def sometimes_accepted(n):
+        r_ = residual(n)
+        if r_ is True:
+            return False
+        if r_ is False:
+            return True
+        al = F.atoms(r_)
+        cands = [{a: False for a in al}] + [{a: (a == b) for a in al} for b in al]
+        return any(not F.evalf(r_, asg) for asg in cands)
+    multi_ok = bool(shape) and always(2) and always(3) and sometimes_accepted(1)
+    found_m = "no refusal depends on the number of attributes of an RDN" if not shape else "always refused with 2 / 3 attributes: %s / %s; a single-attribute RDN can be accepted: %s" % (always(2), always(3), sometimes_accepted(1))
+    rep.ob("C03.import", key2 + "|multi-valued-rdn-refused", multi_ok, "an RDN with more than one attribute is always refused, and one with exactly one attribute is not refused for its shape", found=found_m)
     other = [c for c, v, nn, f3 in I2.fails if f3 == fn2 and sum(1 for a in F.atoms(c) if a[0] == "eq" and "Tag::" in str(a[2])) >= 6]
     rep.ob("C03.import", key2 + "|unknown-tag-refused", len(other) >= 1, "an attribute value with any other tag is refused", found=len(other))
 
@@ -271,6 +303,12 @@ def run(ctx):
             # parameters, i.e. the curve) is a necessary condition of SKI(issuer cert) == AKI(child)
             import c11
             common.borrow_rules(rep, lambda: c11.check_spki(cfg, crate, rep), "C11.", "C03.spki")
+        if cfg == "K1":
+            # "issuer name byte-identical to the issuer certificate's subject name" for an imported CA: a string
+            # wrapper re-emits exactly the bytes it was decoded from only while its alphabet is the one whose UTF-8
+            # spelling coincides with the DER contents (ASCII subsets; BMP/Universal by their own codecs)
+            import c13
+            common.borrow_rules(rep, lambda: (c13.alpha(cfg, crate, rep), c13.sink(cfg, crate, rep)), "C13.", "C03.strings")
         # SKI(issuer certificate) and AKI(child) are the same function of the same inputs only if KeyIdMethod::derive
         # returns pre-specified identifiers unchanged and truncates hashes alike
         import c02
